@@ -2,6 +2,7 @@ from __future__ import annotations
 
 import functools
 import json
+import os
 import shutil
 import tempfile
 import warnings
@@ -159,8 +160,10 @@ class RunInfo:
             data[key] = {_maybe_tuple_to_str(k): v for k, v in data[key].items()}
         data["run_folder"] = str(data["run_folder"])
         data["defaults_path"] = str(self.defaults_path)
-        with path.open("w") as f:
+        tmp_path = path.with_name(f"{path.name}.tmp")
+        with tmp_path.open("w") as f:
             json.dump(data, f, indent=4)
+        os.replace(tmp_path, path)  # noqa: PTH105
 
     @classmethod
     def load(cls: type[RunInfo], run_folder: str | Path) -> RunInfo:
